@@ -119,6 +119,13 @@ Definition agrees (c : case) : bool :=
 Definition term_count (evs : list levent) : nat :=
   length (filter (fun e => match e with EvTerm _ => true | _ => false end) evs).
 
+(* the K nearest learned, non-failed peers according to the implementation's own events *)
+Definition expected_result (c : case) : list id :=
+  let cfg := c_cfg c in
+  let learned := dedupN (filter (fun p => negb (N.eqb p (cSelf cfg))) (c_seeds c ++ resp_heard (i_events c))) in
+  let failed := resp_failed (i_events c) in
+  firstn (cK cfg) (sort_dist (cKey cfg) (filter (fun p => negb (memN p failed)) learned)).
+
 (* C01, clauses 1-5 on the returned list *)
 Definition c01_result_ok (c : case) : bool :=
   let cfg := c_cfg c in
